@@ -7,6 +7,10 @@ VARIABLE c
 Chains == UNION {[1..n -> Wrappers] : n \in 0..MaxDepth}
 Init == c \in [trigger : Triggers, chain : Chains, pos : Positions, second : Triggers \cup {"none"}, mode : Modes]
 Next == UNCHANGED c
-InScope == c.second # c.trigger /\ (c.pos = "const" => c.chain = <<>>)
+\* the deepest chains are explored with the trigger alone, folder mode with chains of length <= 1 (the helper logic looks at
+\* the type expression, not at the mode; the mode decides where the shared helper file goes)
+InScope == /\ c.second # c.trigger /\ (c.pos = "const" => c.chain = <<>>)
+           /\ (Len(c.chain) >= 3 => c.second = "none")
+           /\ (c.mode = "multi" => Len(c.chain) <= 1)
 Emit == InScope => PrintT(<<"REPLAY", ToJson(c)>>)
 =============================================================================
